@@ -175,6 +175,23 @@ pub fn drive(args: &HashMap<String, String>) {
             add(format!("fixed{i}:{sig}"), format!("(mod (X Y) {inc}{b})"), &mut progs);
         }
     }
+    // search paths with several directories: the same file name with different content in two of them, every order,
+    // and a directory named twice (the first directory that has the file wins, for every entry point)
+    std::fs::create_dir_all(format!("{scratch}/incA")).unwrap();
+    std::fs::create_dir_all(format!("{scratch}/incB")).unwrap();
+    std::fs::write(format!("{scratch}/incA/which.clinc"), "(\n (defconstant WHICH 11)\n)\n").unwrap();
+    std::fs::write(format!("{scratch}/incB/which.clinc"), "(\n (defconstant WHICH 99)\n)\n").unwrap();
+    let (da, db, dc) = (format!("{scratch}/incA"), format!("{scratch}/incB"), format!("{scratch}/inc"));
+    let orders: Vec<Vec<String>> = vec![vec![da.clone(), db.clone()], vec![db.clone(), da.clone()], vec![da.clone(), db.clone(), da.clone()], vec![db.clone(), da.clone(), db.clone()],
+        vec![dc.clone(), da.clone(), db.clone(), da.clone()], vec![da.clone(), da.clone(), db.clone()], vec![db.clone(), dc.clone(), da.clone(), dc.clone(), db.clone()]];
+    for (oi, order) in orders.iter().enumerate() {
+        for sig in ["", "*standard-cl-21*", "*standard-cl-22*", "*standard-cl-23*", "*standard-cl-24*"] {
+            let inc = if sig.is_empty() { String::new() } else { format!("(include {sig}) ") };
+            let path = format!("{scratch}/s{oi}_{}.clsp", sig.replace('*', ""));
+            std::fs::write(&path, format!("(mod (X) {inc}(include which.clinc) (+ X WHICH))")).unwrap();
+            progs.push((format!("searchorder{oi}:{sig}"), path, order.clone()));
+        }
+    }
     if let Some(p) = extra {
         for v in crate::util::read_ndjson(p) {
             add(v["name"].as_str().unwrap().to_string(), v["text"].as_str().unwrap().to_string(), &mut progs);
